@@ -213,3 +213,142 @@ func ruleOU14(c *Ctx) {
 	c.check(okAll && n > 0, c.Name(vl), "measure", c.FnPos(vl), "every returned width is runewidth.StringWidth of the (stripped) argument",
 		"the display width is not the library's string width: "+why+" - clusters (emoji with modifiers, ZWJ sequences) are over-counted and the id column of those rows shifts")
 }
+
+// ------------------------------------------------------------------ OU16
+
+func init() {
+	register(&Rule{ID: "OU16", Min: 2, Run: ruleOU16,
+		Doc: "width-budget-has-no-positive-floor: in the renderers reachable from the human `list`, a budget handed to a row-shortening helper (truncateToWidth, abbreviate) that is computed from the space available (not a constant) is never raised to a positive constant (`if b < 20 { b = 20 }`, max(b, 20)) unless the shortened text is shortened again against an unraised budget before it is written: a floor keeps a minimum of text whatever the terminal width, so on a terminal narrower than that minimum plus the id column the row overruns it. (Clamping a budget at 0 is fine.) Decides this shape only; the remaining width arithmetic of the formatters is not decided"})
+}
+
+// positiveFloor: v is a value raised to a positive constant: phi(x, k) / max(x, k) with k > 0 (looking through copies).
+func positiveFloor(v ssa.Value, d int) (int64, bool) {
+	if v == nil || d > 6 {
+		return 0, false
+	}
+	v = resolve(v)
+	switch x := v.(type) {
+	case *ssa.Phi:
+		nonConst := 0
+		var k int64
+		found := false
+		for _, e := range x.Edges {
+			if kk, ok := constInt(e); ok {
+				if kk > 0 {
+					k, found = kk, true
+				}
+				continue
+			}
+			nonConst++
+			if kk, ok := positiveFloor(e, d+1); ok {
+				k, found = kk, true
+			}
+		}
+		if found && nonConst > 0 {
+			return k, true
+		}
+	case *ssa.Call:
+		if calleeFullName(&x.Call) == "builtin max" {
+			var k int64
+			found, nonConst := false, 0
+			for _, a := range x.Call.Args {
+				if kk, ok := constInt(a); ok {
+					if kk > 0 {
+						k, found = kk, true
+					}
+					continue
+				}
+				nonConst++
+			}
+			if found && nonConst > 0 {
+				return k, true
+			}
+		}
+	case *ssa.BinOp:
+		// a floored value minus/plus something is still built on the floor
+		if k, ok := positiveFloor(x.X, d+1); ok && (x.Op == token.SUB || x.Op == token.ADD) {
+			if _, isC := x.Y.(*ssa.Const); isC {
+				return k, true
+			}
+		}
+	}
+	return 0, false
+}
+
+func ruleOU16(c *Ctx) {
+	shorten := map[*ssa.Function]bool{}
+	for _, n := range []string{"truncateToWidth", "abbreviate"} {
+		if f := c.ErgoFn(n); f != nil {
+			shorten[f] = true
+		}
+	}
+	if len(shorten) == 0 {
+		c.unk("ergo.truncateToWidth", "anchor", "-", "row-shortening helpers not found")
+		return
+	}
+	// the property speaks of the human `list`: the renderers reachable from it (the prune preview has its own layout)
+	inList := map[*ssa.Function]bool{}
+	if rl := c.ErgoFn("RunList"); rl != nil {
+		for g := range c.F.TransitiveCallees(rl) {
+			inList[g] = true
+		}
+	} else {
+		c.unk("ergo.RunList", "anchor", "-", "RunList not found")
+		return
+	}
+	n := 0
+	for _, f := range c.Fns {
+		if Outermost(f).Pkg != c.Ergo || f.Blocks == nil || shorten[f] || !inList[Outermost(f)] {
+			continue
+		}
+		k := 0
+		for _, call := range callsIn(f) {
+			cal := calleeOf(call.Common())
+			if cal == nil || !shorten[cal] || len(call.Common().Args) < 2 {
+				continue
+			}
+			b := call.Common().Args[1]
+			if _, isConst := resolve(b).(*ssa.Const); isConst {
+				continue
+			}
+			k++
+			n++
+			construct := fmt.Sprintf("budget %s#%d", cal.Name(), k)
+			fl, floored := positiveFloor(b, 0)
+			if !floored {
+				c.ok(c.Name(f), construct, c.Pos(call.Pos()), "the budget is not raised to a positive constant")
+				continue
+			}
+			// shortened again against an unraised budget?
+			again := false
+			if cv, ok := call.(*ssa.Call); ok {
+				seen := map[ssa.Value]bool{}
+				var walk func(v ssa.Value, d int)
+				walk = func(v ssa.Value, d int) {
+					if v == nil || seen[v] || d > 8 || v.Referrers() == nil {
+						return
+					}
+					seen[v] = true
+					for _, r := range *v.Referrers() {
+						switch y := r.(type) {
+						case *ssa.Phi:
+							walk(y, d+1)
+						case *ssa.Call:
+							if c2 := calleeOf(&y.Call); c2 != nil && shorten[c2] && len(y.Call.Args) >= 2 && y.Call.Args[0] == v {
+								if _, fl2 := positiveFloor(y.Call.Args[1], 0); !fl2 {
+									again = true
+								}
+							}
+						}
+					}
+				}
+				walk(cv, 0)
+			}
+			c.check(again, c.Name(f), construct, c.Pos(call.Pos()), "the floored budget is followed by a second shortening against the space available",
+				fmt.Sprintf("this budget is raised to at least %d columns whatever the terminal width, and the text is not shortened again: on a terminal too narrow for %d columns plus the id column the row overruns its width", fl, fl))
+		}
+	}
+	if n == 0 {
+		c.bad("<module>", "budgets", "-", "no width-derived shortening budget found in the renderers")
+	}
+}
